@@ -34,6 +34,8 @@ OWNERS_FLOOR = 4
 
 
 def run(F, res, tier):
+    from rules import c14 as _c14u
+    _c14u.text_positions_are_counted_in_bytes(F, res, rule="B7", crates=('syntax',))   # engine U: a string token that ends early turns its closing quote into an opener: the damage leaves the definition
     R = pcache.results(F)
     res.analysed.update({"functions": len(R["functions"]), "contexts": R["contexts"],
                          "consumption_sites": len(R["consume_sites"])})
